@@ -49,6 +49,17 @@ TARGETS = {
              ("src/tools/blob_writer.rs", "validate_written_header")],
     "C09b": [("src/blob/index/bptree/serializer.rs", "build_tree"), ("src/blob/index/bptree/serializer.rs", "process_keys_portion"),
              ("src/blob/index/bptree/core.rs", "go_right_file"), ("src/blob/index/bptree/core.rs", "leaf_node_buf_size")],
+    # third batch
+    "C02c": [("src/blob/core.rs", "read_all_entries_with_deletion_marker"), ("src/storage/core.rs", "read_all"), ("src/blob/index/core.rs", "get_all")],
+    "C03c": [("src/blob/core.rs", "from_file"), ("src/blob/core.rs", "try_regenerate_index"), ("src/blob/index/core.rs", "from_file"), ("src/blob/index/core.rs", "load")],
+    "C05c": [("src/record/record.rs", "validate"), ("src/record/record.rs", "check_data_checksum"), ("src/record/partially_serialized.rs", "finalize_with_checksum"),
+             ("src/record/record.rs", "data_checksum_audit")],
+    "C06c": [("src/storage/core.rs", "should_save_corrupted_blob"), ("src/storage/core.rs", "count_old_corrupted_blobs"), ("src/blob/core.rs", "start")],
+    "C07c": [("src/storage/core.rs", "next_blob_name"), ("src/blob/index/tools.rs", "clean_file")],
+    "C12c": [("src/storage/core.rs", "should_try_fsync"), ("src/storage/observer_worker.rs", "try_run_fsync_task"), ("src/io/unix/sync.rs", "fsyncdata"),
+             ("src/storage/core.rs", "close_active_blob")],
+    "C14c": [("src/blob/core.rs", "open_new"), ("src/storage/core.rs", "create_active_blob")],
+    "C15c": [("src/storage/core.rs", "records_count"), ("src/storage/core.rs", "records_count_detailed"), ("src/storage/core.rs", "blobs_count"), ("src/storage/core.rs", "max_id")],
     "C16": [("src/tools/blob_reader.rs", "read_single_record"), ("src/tools/blob_reader.rs", "read_record"), ("src/tools/blob_reader.rs", "is_eof"),
             ("src/tools/utils.rs", "process_blob_with"), ("src/tools/validation.rs", "validate_blob"), ("src/tools/blob_writer.rs", "write_record")],
 }
@@ -121,7 +132,7 @@ def run_one(mt, crate_cache={}):
     crate = P.Crate(open(os.path.join(work, "pearl.mir")).read(), src)
     out = {}
     verdict = "missed"
-    for o in props.PROPS[mt["pid"].rstrip("b")].get("mir", []):
+    for o in props.PROPS[mt["pid"].rstrip("bc")].get("mir", []):
         if o.get("tier", "quick") != "quick":
             continue
         kw = dict(o.get("kwargs", {}))
